@@ -182,3 +182,14 @@ def oracle(c):
         if int(sa[1].split()[1]) != memops:
             fails.append(Failure("oracle", PROP, f"access counter {sa[1].split()[1]} != {memops} executed loads/stores", "modes:dcache-access-count"))
     return fails
+
+
+# The statistics GETTER is part of the model (`Model/SimViews.lean`): what it reports is compared after every snapshot.
+_cases_plain = cases
+
+
+def cases(rng, tier):
+    for c in _cases_plain(rng, tier):
+        if c.lines and c.lines[0].startswith("sim.new"):
+            c.lines = [x for l in c.lines for x in ((l, "sim.dstats") if l == "sim.snap" else (l,))]
+        yield c
